@@ -58,7 +58,7 @@ def check(R, F, P, cfg):
     # every cc_dealloc layout argument
     nd = 0
     for (f, bb, ci) in P.call_sites(lambda c: c["npath"] == "utils::cc_dealloc"):
-        rootf = P.fns[f.root] if f.kind == "closure" else f
+        rootf = site_root(P, f)
         Sx = Super(P, rootf, opaque=DO - {rootf.npath})
         for n in [x for x in Sx.calls_to("utils::cc_dealloc") if x.ctx.fn is f and x.bb == bb]:
             nd += 1
@@ -103,7 +103,7 @@ def check(R, F, P, cfg):
     R.doc("R3.2", "in every freeing function, on the same box: layout() dominates drop_metadata() (weak-ptrs) dominates cc_dealloc; nothing derived from the box is used after the free")
     nfree = 0
     for (f, bb, ci) in P.call_sites(lambda c: c["npath"] == "utils::cc_dealloc"):
-        rootf = P.fns[f.root] if f.kind == "closure" else f
+        rootf = site_root(P, f)
         Sx = Super(P, rootf, opaque=DO - {rootf.npath})
         for n in [x for x in Sx.calls_to("utils::cc_dealloc") if x.ctx.fn is f and x.bb == bb]:
             nfree += 1
@@ -132,7 +132,7 @@ def check(R, F, P, cfg):
     R.floor("R3.2", cfg, 3 + (1 if weak else 0), nfree)
     if weak:
         for (f, bb, ci) in P.call_sites(lambda c: c["npath"] == CCBOX + "drop_metadata"):
-            rootf = P.fns[f.root] if f.kind == "closure" else f
+            rootf = site_root(P, f)
             Sx = Super(P, rootf, opaque=DO - {rootf.npath})
             for n in [x for x in Sx.calls_to(CCBOX + "drop_metadata") if x.ctx.fn is f and x.bb == bb]:
                 box = obj_of(Sx.args_of(n)[0])
